@@ -132,6 +132,18 @@ func (d *driver) exec(o hx.Op, hid, i int, full bool) event {
 	if o.Op == "saveload" {
 		return d.saveload(ev, hid, full)
 	}
+	if o.Op == "loadempty" {
+		// the snapshot a replica takes while it is empty, restored into this (used) replica
+		data, err := storage.NewVerifPartitionSM(d.cfg.Index.New(d.u)).Snapshot()
+		ev.Res = "ok"
+		if err != nil {
+			ev.Res, ev.Err = "saveerr", err.Error()
+		} else if err := d.sm.Restore(data); err != nil {
+			ev.Res, ev.Err = "loaderr", err.Error()
+		}
+		d.observe(&ev)
+		return ev
+	}
 	_, out := d.sm.Apply(hx.Change(d.u, o))
 	oc := hx.OutcomeOf(o, out)
 	ev.Res, ev.Errs = oc.Res, oc.Errs
@@ -874,8 +886,10 @@ func random(c Cfg, n, maxlen int, seed int64, out, rankOut string) {
 				o = hx.Op{Op: "remove", Id: it.Id}
 			case x < 75:
 				o = hx.Op{Op: "update", Id: it.Id, Pt: it.Pt, Meta: it.Meta}
-			case x < 80:
+			case x < 78:
 				o = hx.Op{Op: "saveload"}
+			case x < 80:
+				o = hx.Op{Op: "loadempty"}
 			default:
 				kinds := []string{"binsert", "bupdate", "bremove"}
 				o = hx.Op{Op: kinds[rng.Intn(3)]}
